@@ -81,6 +81,7 @@ class SgzCropper(SgzReader):
         header[24:28] = np_float_to_bytes(np.int32(self.ilines[iline_index_range[0]]))
         header[56:60] = int_to_bytes(compressed_data_length_diskblocks)
         header[60:64] = int_to_bytes((len_xlines * len_ilines * 32) // 8)
+        header[68:72] = int_to_bytes(len_xlines * len_ilines)
 
         # We need to inform the SEG-Y binary header what has happened to the trace length, otherwise
         # segyio will get all confused if attempting to read the cropped SGZ converted back to SEG-Y
